@@ -109,7 +109,7 @@ func init() {
 		ID:    "C06",
 		Level: "exploration",
 		Rule: "cells = op kind {install, upgrade, rollback, uninstall, client-only/validating template} x storage driver {memory, secrets, configmaps} x starting ledger {empty, [superseded,deployed], [deployed,failed], [failed], [superseded,uninstalled]}; per cell a generated 3-version chart (hooks for every event, crds/ in chart and subchart, NOTES.txt, subchart, lookup template, Secret) and a set of flag combinations (quick: greedy pairwise cover of the kind's boolean flags; thorough: full product over the flags read before the dry-run bail-out, the rest random), each run in every dry-run spelling; " +
-			"every combination also runs once with dry-run off on an identically prepared world (positive control). A second route runs the real cobra commands of pkg/cmd (helm template with every --dry-run spelling {unset, bare, client, server, true, false, none} x {--validate, --is-upgrade, --include-crds, --create-namespace, --replace, --skip-crds, --no-hooks, --set, --output-dir, --kube-version}, and helm install/upgrade/upgrade --install/rollback/uninstall --dry-run as cross-check) over an HTTP connection to the simulator with the secrets driver; its positive control is helm install without dry-run. distinct_nontrivial counts distinct (kind, driver, state, spelling, flag combination) tuples whose positive control produced cluster mutations or storage writes.",
+			"every combination also runs once with dry-run off on an identically prepared world (positive control). A second route runs the real cobra commands of pkg/cmd (helm template with every --dry-run spelling {unset, bare, client, server, true, false, none} x {--validate, --is-upgrade, --include-crds, --create-namespace, --replace, --skip-crds, --no-hooks, --set, --output-dir, --kube-version}, and helm install/upgrade/upgrade --install/rollback/uninstall --dry-run as cross-check) over an HTTP connection to the simulator with the secrets driver; its positive control is helm install without dry-run; the same commands also run with unusual --dry-run values (Server, SERVER, Client, True, TRUE, blank+server, yes, 1 ...), which must never write whether helm refuses them or takes them for a dry run. distinct_nontrivial counts distinct (kind, driver, state, spelling, flag combination) tuples whose positive control produced cluster mutations or storage writes.",
 		Assumptions: []string{
 			"the simulated API server sees every request helm sends (all clients are built from the RESTClientGetter / rest.Config whose transport is the simulator); the memory driver is wrapped by a recording driver",
 			"request classes: storage = Secret/ConfigMap named sh.helm.release.v1.* (or owner-label list), mutation = any other non-GET, read = other GET, discovery = /version,/api,/apis,/openapi",
@@ -793,6 +793,9 @@ func post(a *core.Agg) string {
 	}
 	if a.Stats["cli_control_ops_that_wrote"] == 0 {
 		miss = append(miss, "no `helm install` through the CLI route was seen writing (mutations and storage writes)")
+	}
+	if a.Stats["cli_unusual_value_ops"] == 0 {
+		miss = append(miss, "no CLI invocation with an unusual --dry-run value executed")
 	}
 	if a.Stats["cli_dry_ops_template"] == 0 {
 		miss = append(miss, "no `helm template` executed through the CLI route")
